@@ -1968,6 +1968,7 @@ class Identifier(str):
     def __hash__(self) -> int:
         return super().__hash__()
 
+
     def __getnewargs_ex__(self) -> tuple[tuple[str], dict[str, object]]:
         # Support for pickling and copying. `token` is a required keyword argument.
         return (str(self),), {"token": self.token}
@@ -2242,3 +2243,13 @@ def _safe_str(val: object) -> str:
     except ValueError as err:
         # The interpreter refuses to convert integers with very many digits.
         raise LiquidValueError(str(err), token=None) from err
+
+
+def identifier_as_source(name: str) -> str:
+    """Return the identifier _name_ as it can be written in a template.
+
+    A bare word if possible, otherwise a quoted string.
+    """
+    if RE_PROPERTY.fullmatch(name) and name not in _RESERVED_WORDS:
+        return str(name)
+    return quote_string(name)
